@@ -2,7 +2,8 @@ CONSTANTS
   MaxFrames = 2
   Lens = {3, 5}
   H = 3
+  Preface = 0
   Defects = {"ConsumePartial"}
 SPECIFICATION Spec
-INVARIANTS InOrderOnce NoEarly Prompt Consumed NoError SameForEveryCut
+INVARIANTS InOrderOnce NoEarly Prompt Consumed PrefaceOnce NoError SameForEveryCut
 CHECK_DEADLOCK FALSE
